@@ -1,9 +1,12 @@
+pub mod c04;
 pub mod c05;
+pub mod c08;
+pub mod c09;
 
 use crate::engine::Property;
 
 pub fn all() -> Vec<Box<dyn Property>> {
-    vec![Box::new(c05::C05)]
+    vec![Box::new(c04::C04), Box::new(c05::C05), Box::new(c08::C08), Box::new(c09::C09)]
 }
 
 pub fn by_id(id: &str) -> Option<Box<dyn Property>> {
